@@ -112,18 +112,43 @@ class _Ren(ast.NodeTransformer):
         return n
 
 
-def rename_variants(srcs, rels, limit, rng):
+def rename_specs(srcs, rels, limit, rng):
     out = []
     for rel in rels:
         tree = ast.parse(srcs[rel])
         cands = rename_candidates(tree)
         rng.shuffle(cands)
         for fn, name in cands[:limit]:
-            t2 = ast.parse(srcs[rel])
-            target = [f for f in ast.walk(t2) if isinstance(f, (ast.FunctionDef, ast.AsyncFunctionDef)) and f.lineno == fn.lineno and f.name == fn.name][0]
-            _Ren(name, name + "_renamed").visit(target)
-            out.append((f"rename:{rel}:{fn.name}:{name}", {**srcs, rel: ast.unparse(t2) + "\n"}))
+            out.append(("rename", rel, fn.lineno, fn.name, name))
     return out
+
+
+_SRCS = None
+
+
+def build_variant(spec):
+    global _SRCS
+    if _SRCS is None:
+        _SRCS = sources()
+    srcs = _SRCS
+    kind = spec[0]
+    if kind == "reformat":
+        return v_reformat(srcs)
+    if kind == "shift":
+        return v_shift(srcs)
+    if kind == "noise":
+        return v_noise(srcs)
+    _, rel, lineno, fname, name = spec
+    t2 = ast.parse(srcs[rel])
+    target = [f for f in ast.walk(t2) if isinstance(f, (ast.FunctionDef, ast.AsyncFunctionDef)) and f.lineno == lineno and f.name == fname][0]
+    _Ren(name, name + "_renamed").visit(target)
+    return {**srcs, rel: ast.unparse(t2) + "\n"}
+
+
+def work(job):
+    prop, spec = job
+    code, msg, _ = run(prop, build_variant(spec))
+    return prop, spec, code, msg
 
 
 def run(prop, overrides):
@@ -142,33 +167,38 @@ def run(prop, overrides):
 
 
 def main():
-    args = [a for a in sys.argv[1:] if not a.startswith("--")]
+    import multiprocessing as mp
+    args = [a for a in sys.argv[1:] if a.startswith("C")]
     max_rename = 3
     if "--max-rename" in sys.argv:
         max_rename = int(sys.argv[sys.argv.index("--max-rename") + 1])
     props = args or sorted(os.path.basename(p)[:-3].upper() for p in glob.glob(VERIF + "/sa/props/c*.py"))
     srcs = sources()
     rng = random.Random(int(os.environ.get("VERIF_SEED", "1")))
-    tally = collections.Counter()
-    problems = []
+    jobs = []
     for prop in props:
         code, msg, consulted = run(prop, None)
         if code != 0:
             print(f"{prop}: unchanged tree gives {code}: {msg}")
             continue
-        variants = [("reformat", v_reformat(srcs)), ("shift", v_shift(srcs)), ("noise", v_noise(srcs))]
-        variants += rename_variants(srcs, sorted(consulted), max_rename, rng)
-        res = collections.Counter()
-        for name, ov in variants:
-            code, msg, _ = run(prop, ov)
-            res[code] += 1
+        specs = [("reformat",), ("shift",), ("noise",)] + rename_specs(srcs, sorted(consulted), max_rename, rng)
+        jobs += [(prop, s) for s in specs]
+    tally = collections.Counter()
+    per = collections.defaultdict(collections.Counter)
+    problems = []
+    with mp.Pool(int(os.environ.get("JOBS", "16"))) as pool:
+        for prop, spec, code, msg in pool.imap_unordered(work, jobs, chunksize=4):
             tally[code] += 1
+            per[prop][code] += 1
             if code != 0:
-                problems.append((prop, name, code, msg))
-        print(f"{prop}: {len(variants)} variants -> silent {res[0]}, VIOLATION {res[1]}, ANALYSIS-ERROR {res[2]}, crash {res[3]}")
+                problems.append((prop, ":".join(str(x) for x in spec), code, msg))
+    for prop in props:
+        res = per[prop]
+        print(f"{prop}: {sum(res.values())} variants -> silent {res[0]}, VIOLATION {res[1]}, ANALYSIS-ERROR {res[2]}, crash {res[3]}")
     print("TOTAL", dict(tally))
-    for p in problems:
+    for p in sorted(problems):
         print(p[0], p[1], {1: "FALSE-ALARM", 2: "cannot-decide", 3: "CRASH"}[p[2]], p[3][0] if p[3] else "")
 
 
-main()
+if __name__ == "__main__":
+    main()
